@@ -209,6 +209,11 @@ impl Property for C06 {
         if rng.chance(1, 3) {
             case.out = gen_sink_garnish(rng, 200);
             case.err = gen_sink_garnish(rng, 200);
+            if rng.chance(1, 4) {
+                // a row sink that takes every write and fails every flush: whether jawk
+                // flushes is its own business, but not something noise may decide
+                case.out.flush_fails = true;
+            }
         }
         // 0 = stdin, 1 = a file argument behind the opener seam, 2 = that file as the only
         // entry of a directory argument
@@ -297,6 +302,18 @@ impl Property for C06 {
                     show(&clean_ignore.obs.stdout)
                 ),
             );
+        }
+        if case.out.flush_fails {
+            // the same sinks on the garbage-free stream: if jawk flushes there too, the
+            // failing flush ends that run as well and the scenario says nothing about noise
+            let c = ctx.exec(case_spec(case, &clean));
+            if !c.outcome.is_ok() {
+                ctx.stats.invalid = true;
+                ctx.stats.probe("skipped: the garbage-free run flushes the failing row sink too");
+                ctx.jawk_panic = None;
+                return None;
+            }
+            ctx.stats.fault("sink.flush-fails", 1);
         }
         let no_early_stop = !has_opt(&case.opts, "--take") && !case.opts.iter().flatten().any(|t| t.contains('&'));
         let via = match case.param("via") {
